@@ -156,7 +156,7 @@ func (g *gen) stmt(depth int, inLoop bool) plgen.Stmt {
 		i := g.r.Intn(len(g.callees))
 		name := g.callees[i]
 		g.callees = append(g.callees[:i], g.callees[i+1:]...)
-		return plgen.Stmt{K: "use", Arg: name}
+		return plgen.Stmt{K: "use", Arg: name, N: int64(g.r.Intn(3))}
 	case depth >= g.maxDepth:
 		return plgen.Stmt{K: "inc", V: g.v()}
 	case c < 78:
